@@ -60,6 +60,10 @@ def tie(tier, seed, replay):
     from .. import c03_par
     lat = c03_par.run_parallel(tier, seed)
     mism += lat["mismatches"]
+    # aggregates over lattice relations under ascent_par! (gen/c04_lat.py; the serial runs of the same family are C04's)
+    from .. import c04_lat
+    latagg = c04_lat.run(tier, seed + 1, modes=("par",), tag="c02latagg")
+    mism += latagg["mismatches"]
     distinct, dist = set(), {}
     for jid, (r, irp, pool, seeds) in meta.items():
         c = r["case"]
@@ -87,11 +91,12 @@ def tie(tier, seed, replay):
                         mism.append(dict(case=cs, impl={name: dict(len=ilen, tuples=iset)}, model=None, spec={name: sg[name][1]}, kind="impl_violates_spec", known=None,
                                          what="parallel run: relation %s has %d rows / %d distinct; missing %s; extra %s" % (name, ilen, len(iset), [t for t in sg[name][1] if t not in iset][:4], [t for t in iset if t not in sg[name][1]][:4])))
                         break
-    return dict(evaluations=sum(len(r["case"]["inputs"]) for r in results) + len(distinct) + lat["evaluations"], distinct_nontrivial=len(distinct) + lat["distinct"],
+    return dict(evaluations=sum(len(r["case"]["inputs"]) for r in results) + len(distinct) + lat["evaluations"] + latagg["evaluations"], distinct_nontrivial=len(distinct) + lat["distinct"] + latagg["distinct"],
                 rule="random programs (2/3 positive, 1/3 stratified with aggregates) x 2 inputs: serial reference (impl = model = spec), then ascent_par! with and without #![inter_rule_parallelism] in rayon pools of 1, 2, 3, 8, 16 threads, each under 2 (quick) / 8 (thorough) seeded perturbation schedules (yields / microsecond sleeps at the instrumented points of the parallel head update); observables: relation contents as sets, row count = distinct count, no panic, finished within the hang budget; distinct = (program, configuration, seed, input)",
                 samples=[dict(program=r["text"], input=r["case"]["inputs"][0]) for r in results[:2]],
                 distribution=dict(programs=len(results), runs_by_pool_size=dist, schedules_per_configuration=nsched), mismatches=mism,
                 trusted_base=["perturbation hook (ascent/src/verif_hooks.rs + call sites emitted by codegen under feature verif_hooks)", "FRONT hook; generated crates",
                               "RESIDUE (explored, not proved): real DashMap / RwLock / Mutex / boxcar implementations, rayon work stealing, memory ordering of the Relaxed __changed flag; the schedule space of the real binary is sampled, not enumerated"],
                 assumptions=["the modelled atomic steps (Engine/ParStep.v) are linearizable in the real libraries"],
-                extra=dict(cases_skipped_model_too_slow=nskipped, parallel_lattice_runs=lat["evaluations"], parallel_lattice_distribution=lat["distribution"]))
+                extra=dict(cases_skipped_model_too_slow=nskipped, parallel_lattice_runs=lat["evaluations"], parallel_lattice_distribution=lat["distribution"],
+                           parallel_lattice_aggregate_runs=latagg["evaluations"], parallel_lattice_aggregate_distribution=latagg["distribution"]))
